@@ -13,7 +13,9 @@ package main
 
 import (
 	"bytes"
+	"encoding/gob"
 	"fmt"
+	"github.com/itchio/lake/tlc"
 	"os"
 	"path/filepath"
 	"sort"
@@ -41,6 +43,10 @@ type Case struct {
 	// Dense: the whitelist map has an entry for every index (true for members, false for
 	// the others) instead of entries for the members only; both describe the same set.
 	Dense bool `json:"dense,omitempty"`
+	// Resume: additionally, the whitelisted application is interrupted at every checkpoint
+	// the patcher offers (stop after save) and resumed by a brand-new patcher and bowl with
+	// the same whitelist from a gob copy of the checkpoint.
+	Resume bool `json:"resume,omitempty"`
 }
 
 // kinds of new file in the perm family
@@ -368,6 +374,9 @@ func body(w *runner.W) {
 			}
 		}
 		r.Outcome(fmt.Sprintf("%s n=%d writers=%d transposes=%d reads=%v", c.Mode, members, writers, transposes, reads > 0))
+		if c.Resume && !r.Failed() {
+			interrupted(c, r, p.patch, p.oldDir, p.refDir, filepath.Join(p.dir, fmt.Sprintf("resume%d", outN)), wl, p.dp.Source.Files)
+		}
 	}
 
 	comps := []wh.Comp{"none", "gzip-1", "brotli-1"}
@@ -396,7 +405,8 @@ func body(w *runner.W) {
 					for mask := 0; mask < 1<<uint(len(perm)); mask++ {
 						// both descriptions of the same whitelist, alternating so that every mask gets
 						// both across the permutations (and the all-compressions slice runs both for all)
-						sub.DoOwned(Case{Fam: "perm", Perm: perm, Comp: comp, Mode: mode, Mask: mask, Dense: (mask+len(perm[0])+permOrdinal(perm))%2 == 1})
+						// every 9th mask of every group is also run interrupted + resumed
+						sub.DoOwned(Case{Fam: "perm", Perm: perm, Comp: comp, Mode: mode, Mask: mask, Dense: (mask+len(perm[0])+permOrdinal(perm))%2 == 1, Resume: (mask+permOrdinal(perm))%9 == 0})
 					}
 				}
 			}
@@ -523,4 +533,95 @@ func permOrdinal(perm []string) int {
 		}
 	}
 	return n
+}
+
+type stopAt struct {
+	k, seen int
+	ck      []byte
+	err     error
+}
+
+func (s *stopAt) ShouldSave() bool { return true }
+func (s *stopAt) Save(c *patcher.Checkpoint) (patcher.AfterSaveAction, error) {
+	if s.seen == s.k {
+		var buf bytes.Buffer
+		if err := gob.NewEncoder(&buf).Encode(c); err != nil {
+			s.err = err
+			return patcher.AfterSaveStop, nil
+		}
+		s.ck = buf.Bytes()
+		s.seen++
+		return patcher.AfterSaveStop, nil
+	}
+	s.seen++
+	return patcher.AfterSaveContinue, nil
+}
+
+// interrupted stops the whitelisted application at checkpoint k (every k offered), then
+// resumes it with a brand-new patcher and bowl from the serialized checkpoint.
+func interrupted(c Case, r *runner.Rec, patch []byte, oldDir, refDir, out string, wl map[int64]bool, files []*tlc.File) {
+	session := func(ck *patcher.Checkpoint, sc patcher.SaveConsumer) error {
+		pt, err := patcher.New(seeksource.FromBytes(patch), &state.Consumer{})
+		if err != nil {
+			return err
+		}
+		pool := fspool.New(pt.GetTargetContainer(), oldDir)
+		fb, err := bowl.NewFreshBowl(bowl.FreshBowlParams{SourceContainer: pt.GetSourceContainer(), TargetContainer: pt.GetTargetContainer(), TargetPool: pool, OutputFolder: out})
+		if err != nil {
+			return err
+		}
+		defer fb.Close()
+		pt.SetSourceIndexWhitelist(wl)
+		if sc != nil {
+			pt.SetSaveConsumer(sc)
+		}
+		if err := pt.Resume(ck, pool, fb); err != nil {
+			return err
+		}
+		return fb.Commit()
+	}
+	for k := 0; k < 64; k++ {
+		os.RemoveAll(out)
+		st := &stopAt{k: k}
+		err := session(nil, st)
+		if st.err != nil {
+			r.Failf("checkpoint-gob-error", "%v", st.err)
+			break
+		}
+		if st.ck == nil {
+			// fewer than k+1 checkpoints offered: the run completed (or failed for real)
+			if err != nil {
+				r.Failf("resume-error:always-saving", "whitelisted application with an always-saving consumer: %v", err)
+			}
+			break
+		}
+		var ck patcher.Checkpoint
+		if err := gob.NewDecoder(bytes.NewReader(st.ck)).Decode(&ck); err != nil {
+			r.Failf("checkpoint-gob-error", "decode: %v", err)
+			break
+		}
+		if err := session(&ck, nil); err != nil {
+			r.Failf("whitelist-resume-error", "whitelist %v: interrupted at checkpoint %d (file %d), resumed by a new patcher: %v", maskList(c.Mask, len(files)), k, ck.FileIndex, err)
+			break
+		}
+		bad := false
+		for i, f := range files {
+			if !wl[int64(i)] {
+				continue
+			}
+			rel := filepath.FromSlash(f.Path)
+			got, err1 := os.ReadFile(filepath.Join(out, rel))
+			want, _ := os.ReadFile(filepath.Join(refDir, rel))
+			if err1 != nil || !bytes.Equal(got, want) {
+				r.Failf("whitelist-resume-differs", "whitelist %v: interrupted at checkpoint %d and resumed: %s differs from the full application (%v)", maskList(c.Mask, len(files)), k, rel, err1)
+				bad = true
+				break
+			}
+		}
+		if bad {
+			break
+		}
+		r.Trans(1)
+	}
+	os.RemoveAll(out)
 }
